@@ -756,6 +756,25 @@ EXISTS = z3.Function("fs_exists", S, B)
 N7 = z3.Int("szf_list_len")
 
 
+def zkeep(zf, a):
+    e = ZINFO(zf, a)
+    return z3.And(z3.Not(ZISDIR(e)), z3.Not(SKIP(ZNAME(e), BASENAME(ZNAME(e)))))
+
+
+def keep7(a):
+    e = FINFO(a)
+    return z3.And(z3.Not(ISDIR(e)), z3.Not(SKIP(FNAME(e), BASENAME(FNAME(e)))), z3.Not(USIZE(e) > MAXMEM))
+
+
+ZKEPT = z3.RecFunction("zip_kept_before", ZipFileS, I, I)        # number of selected members among infolist()[:i]
+_z = z3.Const("z!def", ZipFileS)
+z3.RecAddDefinition(ZKEPT, [_z, _i], z3.If(_i <= 0, 0, ZKEPT(_z, _i - 1) + z3.If(zkeep(_z, _i - 1), 1, 0)))
+ZSEL = z3.Function("zip_selected_index", ZipFileS, I, I)
+KEPT7 = z3.RecFunction("szf_kept_before", I, I)
+z3.RecAddDefinition(KEPT7, [_i], z3.If(_i <= 0, 0, KEPT7(_i - 1) + z3.If(keep7(_i - 1), 1, 0)))
+SEL7 = z3.Function("szf_selected_index", I, I)
+
+
 def ap_terms(v):
     if isinstance(v, VStr):
         return z3.BoolVal(False), v.t
@@ -1078,14 +1097,6 @@ def member_contracts():
             raise ops.Unsupported("zip loop: expected one ZipFile local")
         return vals[0].t
 
-    ZKEPT = z3.RecFunction("zip_kept_before", ZipFileS, I, I)
-    _z = z3.Const("z!def", ZipFileS)
-
-    def zkeep(zf, a):
-        e = ZINFO(zf, a)
-        return z3.And(z3.Not(ZISDIR(e)), z3.Not(SKIP(ZNAME(e), BASENAME(ZNAME(e)))))
-    z3.RecAddDefinition(ZKEPT, [_z, _i], z3.If(_i <= 0, 0, ZKEPT(_z, _i - 1) + z3.If(zkeep(_z, _i - 1), 1, 0)))
-    ZSEL = z3.Function("zip_selected_index", ZipFileS, I, I)
 
     def zip_sel_inv(lc):
         zf = zip_zf(lc)
@@ -1226,13 +1237,6 @@ def member_contracts():
              "a missing / unreadable file affects only itself"))
 
     # ---- 7z: selection + extraction into a private temp dir + sequential processing
-    KEPT7 = z3.RecFunction("szf_kept_before", I, I)
-
-    def keep7(a):
-        e = FINFO(a)
-        return z3.And(z3.Not(ISDIR(e)), z3.Not(SKIP(FNAME(e), BASENAME(FNAME(e)))), z3.Not(USIZE(e) > MAXMEM))
-    z3.RecAddDefinition(KEPT7, [_i], z3.If(_i <= 0, 0, KEPT7(_i - 1) + z3.If(keep7(_i - 1), 1, 0)))
-    SEL7 = z3.Function("szf_selected_index", I, I)
 
     def sel7_inv(lc):
         i = lc.i
@@ -1526,6 +1530,8 @@ def detect_contracts():
     ens = [clause(t, m) for t, m in SIGS]
     ens.append(("plain-tar-detected-as-tar", lambda c: z3.Implies(is_plain_tar(c), res_is(c, "tar"))))
     ens.append(("plain-tar-detected-as-tar.outside-F26", lambda c: z3.Implies(z3.And(is_plain_tar(c), z3.Not(collides(c))), res_is(c, "tar"))))
+    ens.append(("empty-tar-two-zero-blocks-detected-as-tar",
+                lambda c: z3.Implies(z3.And([SLEN(c.args["file_like"].t) >= 1024] + [hdr(c)[1](i) == bv(0) for i in range(512)]), res_is(c, "tar"))))
     ens.append(("None-only-if-no-published-signature-matches",
                 lambda c: z3.Implies(res_is(c, None), z3.Not(z3.Or([sig_at(*hdr(c), m) for _t, m in SIGS] + [sig_at(*hdr(c), b"ustar", 257)])))))
     def known_type(c):
@@ -1627,6 +1633,31 @@ def lemmas():
     out.append(("C10/spec::7z-layout/lemma#rank-monotone.step", [b >= 0, rank_mono_at(a, b)], rank_mono_at(a, b + 1)))
     out.append(("C10/spec::7z-layout/lemma#pack-prefix-sum-nonneg.base", [], PS(z3.IntVal(0)) >= 0))
     out.append(("C10/spec::7z-layout/lemma#pack-prefix-sum-nonneg.step", [b >= 0, PS(b) >= 0, PSZ(b) > 0], PS(b + 1) >= 0))
+    return out
+
+
+def known_findings(kf, violations, repo, tier):
+    """Recorded genuine defects (known_findings.json): each witness is replayed natively; a finding that still fails
+    prints KNOWN-FINDING and covers exactly its own obligation id (every other refuted obligation stays a violation)."""
+    import json
+    import os
+    import subprocess
+    out = []
+    vio_ids = {v["id"] for v in violations}
+    for f in kf:
+        req = {"property": "C10", "obligation": f["obligation"], "known_finding": f["id"], "witness": f.get("witness"), "repo": repo}
+        try:
+            p = subprocess.run(["/venv/bin/python", os.path.join(os.path.dirname(os.path.dirname(os.path.abspath(__file__))), "replay", "run.py")],
+                               input=json.dumps(req), capture_output=True, text=True, timeout=600, env=dict(os.environ, VERIF_REPO=repo))
+            lines = [l for l in p.stdout.splitlines() if l.startswith("{")]
+            res = json.loads(lines[-1]) if lines else {"reproduced": False}
+        except Exception as e:  # noqa
+            res = {"reproduced": False, "note": str(e)}
+        still = bool(res.get("reproduced"))
+        covers = [o for o in f.get("covers", [f["obligation"]]) if o in vio_ids] if still else []
+        out.append({"finding": f["id"], "still_fails": still, "line": f"{f['id']}: {f['what']}", "covers": covers,
+                    "exclusion": f.get("exclusion"), "proved_outside_exclusion": f.get("proved_outside"),
+                    "witness_replay": res.get("observed", res.get("note", ""))})
     return out
 
 
